@@ -266,6 +266,20 @@ def gen_random(rng, kind):
         if rng.random() < 0.3:
             a = shell(rng, shape)
         return (a, b) if rng.random() < 0.5 else (b, a)
+    if kind == "far":         # two small objects hundreds of voxels apart along one axis (large per-axis offsets)
+        nd = rng.choice([1, 2, 3])
+        long = rng.choice([190, 260, 400, 700])
+        shape = tuple([long] + [rng.randint(1, 3) for _ in range(nd - 1)])
+        perm = list(range(nd)); rng.shuffle(perm)
+        a = np.zeros(shape, dtype=bool); b = np.zeros(shape, dtype=bool)
+        w = rng.randint(1, 3)
+        a[0:w] = True
+        gap = rng.choice([181, 182, 185, long - 2 * w - 1])
+        start = min(long - w, w + gap)
+        b[start:start + w] = True
+        if rng.random() < 0.3:
+            b[0:1] = True                   # also a near part
+        return np.ascontiguousarray(np.transpose(a, perm)), np.ascontiguousarray(np.transpose(b, perm))
     if kind == "near":        # a mask and a perturbed copy
         a = rnd_blob(rng, shape)
         b = a.copy()
@@ -277,7 +291,7 @@ def gen_random(rng, kind):
     return rnd_blob(rng, shape), rnd_blob(rng, shape)
 
 
-KINDS = ["single", "sheet", "border", "disjoint", "nested", "near", "blob"]
+KINDS = ["single", "sheet", "border", "disjoint", "nested", "near", "blob", "far"]
 
 
 def enum_layer(ctx, shape, limit):
